@@ -20,6 +20,11 @@
 (*         (VERIF_SEED noise); fields the code matches against session     *)
 (*         state - epoch, message_seq, transaction id - are not free       *)
 (*   tail  fixed leaf located at the end of its group (RTP/RTCP pad count) *)
+(*         Its value counts octets BACKWARDS from the end of the group, so  *)
+(*         its interesting values are relative to the length of that group  *)
+(*         and of the group around it (Inputs.tla, RelMuts)                 *)
+(*   pf    the leaf is a flag that, when set, turns the LAST octet of the     *)
+(*         group named here into a backwards count (the RTP / RTCP P bit)    *)
 (*   sq    the field is a sequence number: name of its sequence space. Its   *)
 (*         interesting values are relative to the endpoint's CURRENT state   *)
 (*         (the cumulative TSN, the next expected message_seq ...), so the   *)
@@ -39,7 +44,7 @@
 EXTENDS Naturals, Integers, Sequences, FiniteSets
 
 L0 == [n |-> "", k |-> "fixed", w |-> 0, ov |-> FALSE, mask |-> 0, of |-> "", unit |-> 1, bias |-> 0,
-       g |-> <<>>, unk |-> 0, el |-> FALSE, free |-> FALSE, tail |-> FALSE, s |-> "", ew |-> 0, sq |-> "", ls |-> "", px |-> ""]
+       g |-> <<>>, unk |-> 0, el |-> FALSE, free |-> FALSE, tail |-> FALSE, s |-> "", ew |-> 0, sq |-> "", ls |-> "", px |-> "", pf |-> ""]
 
 Fx(g, n, w)      == [L0 EXCEPT !.g = g, !.n = n, !.w = w]                       \* constrained fixed field
 Fr(g, n, w)      == [L0 EXCEPT !.g = g, !.n = n, !.w = w, !.free = TRUE]       \* unconstrained fixed field
@@ -57,6 +62,7 @@ Mk(l, m)         == [l EXCEPT !.mask = m]
 Ov(l, m)         == [l EXCEPT !.ov = TRUE, !.mask = m]
 El(l)            == [l EXCEPT !.el = TRUE]
 Tl(l)            == [l EXCEPT !.tail = TRUE]
+Pf(l, grp)       == [l EXCEPT !.pf = grp]        \* flag announcing a backwards count in the last octet of group grp
 Lw(l, w)         == [l EXCEPT !.ew = w]          \* a list of fixed-width elements, w bytes each
 Sq(l, space)     == [l EXCEPT !.sq = space]      \* a sequence number of the named space (serial arithmetic)
 
@@ -66,7 +72,7 @@ Sq(l, space)     == [l EXCEPT !.sq = space]      \* a sequence number of the nam
 RtpFixed(g, x, cc, p) ==
   << Fx(g, "b0", 1),
      Ov(Tg(g, "version", 1, 1), 192),
-     Ov(Ct(g, "p", 1, "", 0), 32),
+     Pf(Ov(Ct(g, "p", 1, "", 0), 32), g[Len(g)]),
      Ov(Ct(g, "x", 1, "", 0), 16),
      Ov(Ct(g, "cc", 1, "csrc", 4), 15),
      Fr(g, "mpt", 1), Sq(Fr(g, "seq", 2), "rtp_seq"), Fr(g, "ts", 4), Fr(g, "ssrc", 4),
@@ -95,7 +101,9 @@ RtpExt2 ==
      Rs(R, "payload") >>
 
 \* padding bit set: the last byte counts the padding bytes (itself included)
-RtpPad == RtpFixed(R, 0, 0, 1) \o << Rs(R, "payload"), Tl(Ln(R, "padcount", 1, "", 1, 0)) >>
+\* (payload and padding are a group of their own: the count is measured against what follows the header)
+RB == <<"rtp", "body">>
+RtpPad == RtpFixed(R, 0, 0, 1) \o << Rs(RB, "payload"), Tl(Ln(RB, "padcount", 1, "", 1, 0)) >>
 
 \* H.264 STAP-A payload (media/depacketizer.rs): NAL header 24, then (len16, NAL)*
 RP == <<"rtp", "stap">>
@@ -121,7 +129,7 @@ RtpRtx == RtpFixed(R, 0, 0, 0) \o << Fr(R, "osn", 2), Rs(R, "payload") >>
 RtcpHdr(g, cof, cunit, unkcnt, b) ==
   << El(Fx(g, "b0", 1)),
      Ov(Tg(g, "version", 1, 1), 192),
-     Ov(Ct(g, "p", 1, "", 0), 32),
+     Pf(Ov(Ct(g, "p", 1, "", 0), 32), b),
      IF unkcnt >= 0 THEN Ov(Tg(g, "fmt", 1, unkcnt), 31) ELSE Ov(Ct(g, "rc", 1, cof, cunit), 31),
      Tg(g, "pt", 1, 210),
      Ln(g, "length", 2, b, 4, 0) >>
@@ -176,19 +184,32 @@ RtcpRemb ==
   << Fr(b, "sender", 4), Fr(b, "media", 4), Tg(b, "remb", 4, 1482184792), Ct(b, "numssrc", 1, "ssrcs", 4),
      Fr(b, "brate", 3), Lw(Vr(b, "ssrcs"), 4) >>
 
+\* one packet of a compound: its leaves inside group p, names prefixed
+RtcpIn(p, leaves) == [i \in 1..Len(leaves) |->
+                        [leaves[i] EXCEPT !.g = <<p>> \o leaves[i].g, !.n = p \o "." \o leaves[i].n,
+                                          !.of = IF \E j \in 1..Len(leaves) : leaves[j].n = leaves[i].of
+                                                 THEN p \o "." \o leaves[i].of ELSE leaves[i].of]]
+
 \* compound SR + SDES + BYE: three packets (each a repeatable element)
-RtcpCompound ==
-  LET Re(p, leaves) == [i \in 1..Len(leaves) |->
-                          [leaves[i] EXCEPT !.g = <<p>> \o leaves[i].g, !.n = p \o "." \o leaves[i].n,
-                                            !.of = IF \E j \in 1..Len(leaves) : leaves[j].n = leaves[i].of
-                                                   THEN p \o "." \o leaves[i].of ELSE leaves[i].of]]
-  IN Re("c1", RtcpSr) \o Re("c2", RtcpSdes) \o Re("c3", RtcpBye)
+RtcpCompound == RtcpIn("c1", RtcpSr) \o RtcpIn("c2", RtcpSdes) \o RtcpIn("c3", RtcpBye)
 
 \* RR with the padding bit: last byte counts the padding
 RtcpPadded ==
   LET g == <<"rr">> b == <<"rr", "rrbody">> IN
   RtcpHdr(g, "blocks", 24, -1, "rrbody") \o
   << Fr(b, "ssrc", 4), Lw(Vr(b, "blocks"), 24), Rc(b, "padding"), Tl(Ln(b, "padcount", 1, "", 1, 0)) >>
+
+\* PLI with the padding bit
+RtcpPliPadded ==
+  LET g == <<"pli">> b == <<"pli", "plibody">> IN
+  RtcpHdr(g, "", 0, 31, "plibody") \o
+  << Fr(b, "sender", 4), Fr(b, "media", 4), Rc(b, "padding"), Tl(Ln(b, "padcount", 1, "", 1, 0)) >>
+
+\* padding inside a compound: on the last packet (RR + padded PLI: RFC 3550 6.4.1), and on a packet that is not the
+\* last (padded RR + PLI: the parser strips padding packet by packet, so the count of a middle packet is measured
+\* against that packet and not against the datagram)
+RtcpCompoundPadLast == RtcpIn("c1", RtcpRr) \o RtcpIn("c2", RtcpPliPadded)
+RtcpCompoundPadMid  == RtcpIn("c1", RtcpPadded) \o RtcpIn("c2", RtcpPli)
 
 ---------------------------------------------------------------------------
 (* STUN / TURN  (src/transports/ice/stun.rs decode_stun_message; ice/mod.rs *)
@@ -522,6 +543,7 @@ AllTemplates == <<
   T("rtcp.sr", RtcpSr), T("rtcp.rr", RtcpRr), T("rtcp.sdes", RtcpSdes), T("rtcp.bye", RtcpBye), T("rtcp.nack", RtcpNack),
   T("rtcp.twcc", RtcpTwcc), T("rtcp.pli", RtcpPli), T("rtcp.fir", RtcpFir), T("rtcp.remb", RtcpRemb),
   T("rtcp.compound", RtcpCompound), T("rtcp.padded", RtcpPadded),
+  T("rtcp.compound_padlast", RtcpCompoundPadLast), T("rtcp.compound_padmid", RtcpCompoundPadMid),
   T("stun.binding_req", StunBindingReq), T("stun.binding_ok4", StunBindingOk4), T("stun.binding_ok6", StunBindingOk6),
   T("stun.alloc_ok", StunAllocOk), T("stun.error401", StunError401), T("stun.data_ind", StunDataInd),
   T("turn.channeldata", TurnChannelData),
@@ -573,5 +595,6 @@ WellFormed(ls) ==
                   \E j \in 1..(i-1) : ls[j].k \in {"len", "count"} /\ ls[j].of = l.n)
             /\ (l.k = "pad" => l.unit > 0)
             /\ (l.tail => l.w > 0 /\ ~l.ov)
+            /\ (l.pf # "" => l.ov /\ l.pf \in GroupNames(ls))
        /\ (l.k \in TextKinds) => l.s # ""
 =============================================================================
